@@ -71,6 +71,12 @@ func (s *State) clone() *State {
 	return n
 }
 
+type havocRec struct {
+	newEpoch int
+	pre      *State
+	preAlloc string
+}
+
 type mergeRec struct {
 	newEpoch int
 	parts    []mergePart
@@ -81,7 +87,8 @@ type mergePart struct {
 }
 
 type LoopInfo struct {
-	NonFresh map[string]bool // keys modified in the loop on objects that may pre-date the loop
+	NonFresh map[string]bool // keys modified in the loop on arbitrary objects that may pre-date the loop
+	OldRefs  map[string][]ssa.Value // keys modified in the loop only on these loop-invariant objects (and fresh ones)
 	Header  *ssa.BasicBlock
 	Blocks  map[*ssa.BasicBlock]bool
 	Ordinal int
@@ -135,6 +142,8 @@ type FnVC struct {
 	litOrd map[*ssa.Alloc]int
 	LitProp string
 	lemmaName string
+	havocs []havocRec
+	initOnly map[string]bool
 	provingLemma *Axiom
 }
 
@@ -229,6 +238,15 @@ func (v *FnVC) heapGet(st *State, key string) string {
 				v.emitMergeDef(key, name, m)
 			}
 		}
+		// key first seen after a havoc of the whole heap: init-only fields keep their values in older objects
+		if v.initOnly[key] {
+			for _, h := range v.havocs {
+				if h.newEpoch == st.epoch {
+					pre := v.heapGet(h.pre, key)
+					v.asserts = append(v.asserts, fmt.Sprintf("(forall ((a Int)) (! (=> (< a %s) (= (select %s a) (select %s a))) :pattern ((select %s a))))", h.preAlloc, name, pre, name))
+				}
+			}
+		}
 	}
 	return name
 }
@@ -283,6 +301,21 @@ func (v *FnVC) havocAll(st *State) {
 	oldAlloc := st.alloc
 	st.alloc = v.freshConst("alloc", "Int")
 	v.asserts = append(v.asserts, fmt.Sprintf("(>= %s %s)", st.alloc, oldAlloc))
+	// init-only fields of objects that existed before the call keep their values
+	var ks []string
+	for k, io := range v.initOnly {
+		if io {
+			ks = append(ks, k)
+		}
+	}
+	sort.Strings(ks)
+	v.havocs = append(v.havocs, havocRec{newEpoch: st.epoch, pre: &State{heap: old, epoch: oldEpoch, alloc: oldAlloc}, preAlloc: oldAlloc})
+	for _, k := range ks {
+		pre := v.heapGet(&State{heap: old, epoch: oldEpoch}, k)
+		nw := v.freshConst("Hio_"+k, v.heapSorts[k])
+		st.heap[k] = nw
+		v.asserts = append(v.asserts, fmt.Sprintf("(forall ((a Int)) (! (=> (< a %s) (= (select %s a) (select %s a))) :pattern ((select %s a))))", oldAlloc, nw, pre, nw))
+	}
 }
 
 func (v *FnVC) mergeStates(parts []mergePart) *State {
@@ -362,7 +395,17 @@ func (v *FnVC) mergeStates(parts []mergePart) *State {
 
 // heap keys
 func (v *FnVC) fieldKey(st types.Type, field *types.Var) string {
-	return v.regKey("F:"+typeKey(st)+"."+field.Name(), fmt.Sprintf("(Array Int %s)", v.S.SortOf(field.Type())))
+	k := v.regKey("F:"+typeKey(st)+"."+field.Name(), fmt.Sprintf("(Array Int %s)", v.S.SortOf(field.Type())))
+	if _, seen := v.initOnly[k]; !seen {
+		if v.initOnly == nil {
+			v.initOnly = map[string]bool{}
+		}
+		v.initOnly[k] = v.W.IsInitOnly(st, field)
+		if v.initOnly[k] {
+			v.note("field %s.%s is init-only (never written after construction in its package): kept across unknown calls", typeKey(st), field.Name())
+		}
+	}
+	return k
 }
 func (v *FnVC) cellKey(t types.Type) string {
 	return v.regKey("C:"+typeKey(t), fmt.Sprintf("(Array Int %s)", v.S.SortOf(t)))
@@ -600,7 +643,7 @@ func (v *FnVC) wf(t Term, depth int) string {
 	case *types.Interface:
 		return fmt.Sprintf("(and (>= (itag %s) 0) (=> (= (itag %s) 0) (= (ival %s) 0)))", t.S, t.S, t.S)
 	case *types.Slice:
-		return fmt.Sprintf("(and (>= (sarr %s) 0) (= (soff %s) 0) (>= (slen %s) 0) (>= (scap %s) (slen %s)) (<= (scap %s) 9223372036854775807) (=> (= (sarr %s) 0) (= (scap %s) 0)))", t.S, t.S, t.S, t.S, t.S, t.S, t.S, t.S)
+		return fmt.Sprintf("(and (>= (sarr %s) 0) (= (soff %s) 0) (>= (slen %s) 0) (>= (scap %s) (slen %s)) (<= (scap %s) 281474976710656) (=> (= (sarr %s) 0) (= (scap %s) 0)))", t.S, t.S, t.S, t.S, t.S, t.S, t.S, t.S)
 	case *types.Struct:
 		if depth <= 0 {
 			return "true"
@@ -641,7 +684,7 @@ func (v *FnVC) wf(t Term, depth int) string {
 
 func (v *FnVC) strWF(s string) string {
 	e := v.S.StrLit("")
-	return fmt.Sprintf("(and (>= (len_s %s) 0) (<= (len_s %s) 9223372036854775807) (= (= (len_s %s) 0) (= %s %s)))", s, s, s, s, e)
+	return fmt.Sprintf("(and (>= (len_s %s) 0) (<= (len_s %s) 281474976710656) (= (= (len_s %s) 0) (= %s %s)))", s, s, s, s, e)
 }
 
 func (v *FnVC) assumeWF(t Term) {
@@ -874,14 +917,39 @@ func (v *FnVC) order() []*ssa.BasicBlock {
 func (v *FnVC) loopModKeys(li *LoopInfo) (keys map[string]bool, all bool) {
 	keys = map[string]bool{}
 	li.NonFresh = map[string]bool{}
+	li.OldRefs = map[string][]ssa.Value{}
+	outside := func(x ssa.Value) bool {
+		switch y := x.(type) {
+		case *ssa.Parameter, *ssa.FreeVar, *ssa.Global, *ssa.Const:
+			return true
+		case ssa.Instruction:
+			return !li.Blocks[y.Block()]
+		}
+		return false
+	}
 	for b := range li.Blocks {
 		for _, ins := range b.Instrs {
 			switch i := ins.(type) {
 			case *ssa.Store:
 				fresh := v.rootAllocatedIn(i.Addr, li)
+				var obj ssa.Value
+				if fa, ok := i.Addr.(*ssa.FieldAddr); ok {
+					if _, isPtr := fa.X.Type().Underlying().(*types.Pointer); isPtr && outside(fa.X) {
+						if _, nested := fa.X.(*ssa.FieldAddr); !nested {
+							if _, nested2 := fa.X.(*ssa.IndexAddr); !nested2 {
+								obj = fa.X
+							}
+						}
+					}
+				}
 				for _, k := range v.storeKeys(i.Addr) {
 					keys[k] = true
-					if !fresh {
+					if fresh {
+						continue
+					}
+					if obj != nil && strings.HasPrefix(k, "F:") {
+						li.OldRefs[k] = append(li.OldRefs[k], obj)
+					} else {
 						li.NonFresh[k] = true
 					}
 				}
@@ -916,9 +984,15 @@ func (v *FnVC) loopModKeys(li *LoopInfo) (keys map[string]bool, all bool) {
 				if bi, ok := i.Common().Value.(*ssa.Builtin); ok && bi.Name() == "append" {
 					isAppend = true
 				}
+				refs := v.callModRefs(i.Common())
 				for _, k := range ks {
 					keys[k] = true
-					if !isAppend {
+					if isAppend {
+						continue
+					}
+					if r, ok := refs[k]; ok && r != nil && outside(r) {
+						li.OldRefs[k] = append(li.OldRefs[k], r)
+					} else {
 						li.NonFresh[k] = true
 					}
 				}
@@ -1062,6 +1136,10 @@ func (v *FnVC) Generate() (err error) {
 	for _, fvr := range fn.FreeVars {
 		t := v.havocVal("fv_"+fvr.Name(), fvr.Type())
 		v.vals[fvr] = t
+		if _, isPtr := fvr.Type().Underlying().(*types.Pointer); isPtr {
+			// a captured variable is always a valid cell
+			v.asserts = append(v.asserts, fmt.Sprintf("(> %s 0)", t.S))
+		}
 	}
 	blocks := v.order()
 	for _, b := range blocks {
@@ -1235,7 +1313,16 @@ func (v *FnVC) loopHeader(b *ssa.BasicBlock, li *LoopInfo, entryPreds []*ssa.Bas
 			// keys that the loop only changes on objects it allocates itself keep their contents for all older objects
 			if !li.NonFresh[k] && strings.HasPrefix(v.heapSorts[k], "(Array Int ") && !strings.HasPrefix(k, "L:") && !strings.HasPrefix(k, "IT:") {
 				nw := v.cur.heap[k]
-				v.asserts = append(v.asserts, fmt.Sprintf("(forall ((a Int)) (! (=> (< a %s) (= (select %s a) (select %s a))) :pattern ((select %s a))))", v.cur.alloc, nw, pre, nw))
+				excl := ""
+				seen := map[string]bool{}
+				for _, r := range li.OldRefs[k] {
+					rt := v.val(r).S
+					if !seen[rt] {
+						seen[rt] = true
+						excl += fmt.Sprintf(" (not (= a %s))", rt)
+					}
+				}
+				v.asserts = append(v.asserts, fmt.Sprintf("(forall ((a Int)) (! (=> (and (< a %s)%s) (= (select %s a) (select %s a))) :pattern ((select %s a))))", v.cur.alloc, excl, nw, pre, nw))
 			}
 		}
 		// allocation counter grows
@@ -1271,7 +1358,9 @@ func (v *FnVC) loopHeader(b *ssa.BasicBlock, li *LoopInfo, entryPreds []*ssa.Bas
 		}
 		env := v.loopEnv(b, li, nil)
 		f := v.evalBool(c.E, env)
-		v.assume(v.reach[b], f)
+		// narrows what follows the header; a global assumption would make the entry obligations vacuous
+		// whenever the invariant is contradictory
+		v.narrow(f)
 	}
 	if v.hdrStates == nil {
 		v.hdrStates = map[*ssa.BasicBlock]*State{}
